@@ -36,7 +36,10 @@ def make (spec0):
         if env == 'real':
             med = [[float (rng.uniform (2, 80)), float (10 ** rng.uniform (-4, 0)), 0.0]]
         spec = gen.fam_ground (rng, media = med)
+    if rng.random () < 0.1:
+        spec = gen.curve_spec (rng) or spec
     gen.add_sources (rng, spec, nmax = 4)
+    gen.taper_some (np.random.default_rng ([spec0 ['seed'], 71, spec0 ['i']]), spec, 0.15)
     mag = 10 ** rng.uniform (-6, 6) if rng.random () < 0.5 else rng.uniform (0.5, 2)
     ph  = rng.choice ([0, np.pi / 2, np.pi, rng.uniform (-np.pi, np.pi)])
     spec ['factor'] = [float (mag * np.cos (ph)), float (mag * np.sin (ph))]
